@@ -616,11 +616,11 @@ def slot_set_model(ctx, rule):
     sa = ctx.repo.method(P + "Parameter", "__setattr__")
     NI = Obj("NotImplemented")
     problems, n = [], 0
-    for attribute, watched, held in [(a, w, h) for a in ("bounds", "default", "doc") for w in (True, False) for h in ("unset", "other", "identical")]:
+    for attribute, watched, held, wraises in [(a, w, h, False) for a in ("bounds", "default", "doc") for w in (True, False) for h in ("unset", "other", "identical")] + [("constant", True, "other", True)]:
         value = Obj("assigned_value")
         prev = {"unset": None, "other": Obj("previous_value"), "identical": value}[held]
         me = Obj("parameter", name="p", owner=Obj("Owner"))
-        me.attrs["__class__"] = Obj("ParameterType", _all_slots_=["name", "default", "bounds", "doc", "watchers"])
+        me.attrs["__class__"] = Obj("ParameterType", _all_slots_=["name", "default", "bounds", "doc", "watchers", "constant"])
         me.attrs["watchers"] = {attribute: [Obj("watcher")]} if watched else {}
         if held != "unset":
             me.attrs[attribute] = prev
@@ -633,6 +633,9 @@ def slot_set_model(ctx, rule):
                 return None
             if fn == "self._trigger_event":
                 events.append(tuple(args))
+                if wraises:
+                    from engine.absint import _Raise as _Rw
+                    raise _Rw("RuntimeError")
                 return None
             if fn == "self._on_set":
                 onset.append(tuple(args))
@@ -643,9 +646,16 @@ def slot_set_model(ctx, rule):
             outs = it.run_all(sa, {sa.params[0]: me, sa.params[1]: attribute, sa.params[2]: value})
         except Unsupported as e:
             raise AnalysisError("slot-set model: absint cannot interpret Parameter.__setattr__: %s" % e)
-        if len(outs) != 1 or outs[0].imprecise or outs[0].kind != "return":
+        if len(outs) != 1 or outs[0].imprecise or outs[0].kind != ("raise" if wraises else "return"):
             raise AnalysisError("slot-set model: Parameter.__setattr__ is not interpretable precisely (%s)" % (outs[0].notes[:2] if outs else "no outcome"))
         n += 1
+        if wraises:
+            # a watcher of the slot raises while it is being told: the store stands (edit_constant re-locks with `pobj.constant = True`
+            # on its way out; undoing that store leaves the constant unlocked for good)
+            if stores != [(attribute, value)] or me.attrs.get(attribute) is not value:
+                problems.append("p.%s = v where a watcher of the slot raises: the slot holds %r afterwards (stores %r), specification: the assigned value stays -- the re-locking store of "
+                                "edit_constant must not be undone by a failing watcher" % (attribute, me.attrs.get(attribute), [a for a, _ in stores]))
+            continue
         desc = "p.%s = v where the slot %s and %s watch it" % (attribute, {"unset": "is being initialised", "other": "holds another object", "identical": "already holds that very object"}[held],
                                                                "watchers" if watched else "no watchers")
         if stores != [(attribute, value)]:
